@@ -37,6 +37,9 @@ Qed.
 Lemma subs_spec st s d : In d (subs st s) <-> In d (keys st) /\ In s (ancs st d).
 Proof. unfold subs. rewrite filter_In, memb_In. tauto. Qed.
 
+Lemma existsb_ext' {A} (f g : A -> bool) l : (forall x, f x = g x) -> existsb f l = existsb g l.
+Proof. intros H. induction l as [|x t IH]; simpl; [reflexivity|]. rewrite H, IH. reflexivity. Qed.
+
 (** ---- membership views ---- *)
 Lemma has_cells_spec st x m :
   has_cells st x m = true <-> def_cells st x m = true \/ exists b, In b (ancs st x) /\ def_cells st b m = true.
@@ -64,19 +67,24 @@ Proof.
   rewrite (get_space_in_none _ _ E) in H. discriminate.
 Qed.
 
+(** something that is not a space has no ancestors *)
+Lemma ancs_nonempty_space st s b : In b (ancs st s) -> has_space st s = true.
+Proof.
+  intros Ib. unfold has_space. destruct (memb s (keys st)) eqn:E; [reflexivity|]. exfalso.
+  unfold ancs, mro_list, mro_of in Ib.
+  assert (B : bases_of (graph_of st) s = []).
+  { unfold graph_of. rewrite bases_of_graph. unfold keys in E. rewrite (get_space_in_none _ _ E). reflexivity. }
+  simpl in Ib. rewrite B in Ib. simpl in Ib. exact Ib.
+Qed.
+
 (** a name a space has as cells is a cells in all its sub spaces *)
 Lemma has_cells_down st s x m : wf st -> has_space st x = true ->
   In s (ancs st x) -> has_cells st s m = true -> has_cells st x m = true.
 Proof.
   intros W Hx I H. apply has_cells_spec. right. apply has_cells_spec in H. destruct H as [H|(b & Ib & H)].
   - exists s. auto.
-  - exists b. split; [|exact H]. eapply ancs_trans; eauto.
-    (* s is a space: it has ancestors *)
-    destruct (memb s (keys st)) eqn:E; [exact E|].
-    unfold ancs, mro_list, mro_of in Ib. exfalso.
-    assert (B : bases_of (graph_of st) s = []).
-    { unfold graph_of. rewrite bases_of_graph. unfold keys in E. rewrite (get_space_in_none _ _ E). reflexivity. }
-    simpl in Ib. rewrite B in Ib. simpl in Ib. exact Ib.
+  - exists b. split; [|exact H]. apply (ancs_trans st b s x W Hx); auto.
+    eapply ancs_nonempty_space; eauto.
 Qed.
 
 Lemma has_ref_down st s x m : wf st -> has_space st x = true ->
@@ -84,12 +92,8 @@ Lemma has_ref_down st s x m : wf st -> has_space st x = true ->
 Proof.
   intros W Hx I H. apply has_ref_spec. right. apply has_ref_spec in H. destruct H as [H|(b & Ib & H)].
   - exists s. auto.
-  - exists b. split; [|exact H]. eapply ancs_trans; eauto.
-    destruct (memb s (keys st)) eqn:E; [exact E|].
-    unfold ancs, mro_list, mro_of in Ib. exfalso.
-    assert (B : bases_of (graph_of st) s = []).
-    { unfold graph_of. rewrite bases_of_graph. unfold keys in E. rewrite (get_space_in_none _ _ E). reflexivity. }
-    simpl in Ib. rewrite B in Ib. simpl in Ib. exact Ib.
+  - exists b. split; [|exact H]. apply (ancs_trans st b s x W Hx); auto.
+    eapply ancs_nonempty_space; eauto.
 Qed.
 
 (** ---- an update of one space that keeps its bases ---- *)
@@ -132,7 +136,7 @@ Lemma has_cells_upd_refs st s g x m :
   has_cells (upd_space st s g) x m = has_cells st x m.
 Proof.
   intros H1 H2. unfold has_cells. rewrite ancs_upd, def_cells_upd_refs; auto. f_equal.
-  apply existsb_ext. intros b. apply def_cells_upd_refs, H1.
+  apply existsb_ext'. intros b. apply def_cells_upd_refs, H1.
 Qed.
 
 Lemma has_ref_upd_cells st s g x m :
@@ -140,7 +144,7 @@ Lemma has_ref_upd_cells st s g x m :
   has_ref (upd_space st s g) x m = has_ref st x m.
 Proof.
   intros H1 H2. unfold has_ref. rewrite ancs_upd, def_ref_upd_cells; auto. f_equal.
-  apply existsb_ext. intros b. apply def_ref_upd_cells, H1.
+  apply existsb_ext'. intros b. apply def_ref_upd_cells, H1.
 Qed.
 
 (** new cells names appear at s only *)
